@@ -25,6 +25,9 @@ def run(ctx) -> None:
     jsonrules.rule_K3(ctx)
     jsonrules.rule_J1(ctx)
     jsonrules.rule_J6(ctx)
+    ctx.rules_run += ["K4", "K5"]
+    jsonrules.rule_K4(ctx)
+    jsonrules.rule_K5(ctx)
     from .c19 import rule_I3
     ctx.rules_run.append("I3")
     rule_I3(ctx)            # emitted keys are found again by from_dict (key table)   # reference JSON always has text keys
